@@ -26,7 +26,7 @@ vars == << l, sts, cfgs, aux >>
 Ifcs == 1..8
 
 NoCfg == [own |-> << >>, mtu |-> 0, attrs |-> [wifi |-> 0], data |-> << >>]
-NoAux == [resetLive |-> 0 - 1, resetBytes |-> 0 - 1, fixed |-> << >>]
+NoAux == [resetLive |-> 0 - 1, resetBytes |-> 0 - 1, fixed |-> << >>, expect |-> {}]
 
 TraceInit ==
   /\ l = 1
@@ -78,19 +78,50 @@ TxBytes(o) == LET s == SelectSeq(o, LAMBDA x : x.k = "t") IN [i \in 1..Len(s) |-
 
 IsTopoReset(req) == req.op = OpReset /\ req.tos = 0
 
+(* a fault that leaves the effect of the request unspecified (C18): a refused allocation or   *)
+(* transmit, or a failed getter other than a plain attribute getter (MTU 0, own address 1,    *)
+(* icon 2, friendly name 3, hardware id 5).  A failed attribute getter only frees its own     *)
+(* TLV (C04).                                                                                *)
+FaultOf(ev) == (ev.flt % 4) + (IF \E g \in {0, 1, 2, 3, 5} : Bit(ev.gf, g) THEN 4 ELSE 0)
+
 (* C19: ledger monitors.  live = allocations of this interface still held when the handler   *)
 (* returned; live0 = the same before the request.                                            *)
 LedgerOK(ev, req, a) ==
   /\ ev.live - ev.live0 <= 2                     \* retained state grows by at most a record and a node
   /\ ev.live >= 0
   /\ (l > 1 /\ Log[l - 1].e = "req" /\ Log[l - 1].ifc = ev.ifc /\ Log[l - 1].b = ev.b
-        /\ Log[l - 1].fill = ev.fill /\ Log[l - 1].flt = 0 /\ ev.flt = 0)
+        /\ Log[l - 1].fill = ev.fill /\ FaultOf(Log[l - 1]) = 0 /\ FaultOf(ev) = 0)
        => ev.live <= Log[l - 1].live             \* idempotence: the same frame again retains nothing more
-  /\ (IsTopoReset(req) /\ ev.flt = 0 /\ a.resetLive >= 0)
+  /\ (IsTopoReset(req) /\ FaultOf(ev) = 0 /\ a.resetLive >= 0)
        => ev.live = a.resetLive /\ ev.bytes = a.resetBytes   \* after a Reset: the constant record only
 
-AuxNext(ev, req, a, out) ==
-  LET a1 == IF IsTopoReset(req) /\ ev.flt = 0 /\ a.resetLive < 0
+(* C10: a frame transmitted by interface A and delivered unmodified to interface B (the event *)
+(* says which transmit item of which earlier event it is; the monitor verifies that claim).   *)
+PipeOK(ev) ==
+  IF ev.pipe[1] = 0 THEN TRUE
+  ELSE LET src == Log[ev.pipe[1]].out[ev.pipe[2]].b
+       IN ev.len = Len(src) /\ \A i \in 1..Len(src) : At(ev.b, ev.fill, i) = src[i]
+
+(* a Probe/Train A emitted towards B must be reported by B with A as its source *)
+ExpectAfterRx(ev, a) ==
+  IF ev.pipe[1] = 0 THEN a.expect
+  ELSE LET sev == Log[ev.pipe[1]]
+           f == TxDecode(sev.out[ev.pipe[2]].b, cfgs[sev.ifc].own, cfgs[sev.ifc].mtu)
+       IN IF f.op \in {OpProbe, OpTrain} /\ f.ed = cfgs[ev.ifc].own
+          THEN a.expect \cup {[rs |-> cfgs[sev.ifc].own, es |-> f.es, ed |-> f.ed]}
+          ELSE a.expect
+
+IsQueryResp(req, out) ==
+  LET fr == Frames(out) IN req.op = OpQuery /\ req.tos = 0 /\ Len(fr) = 1 /\ fr[1].op = OpQueryResp
+
+PeerReportOK(req, a, out) ==
+  IsQueryResp(req, out) => (~Frames(out)[1].more => a.expect \subseteq DescSet(Frames(out)[1]))
+
+AuxNext(ev, req, a0, out) ==
+  LET a == [a0 EXCEPT !.expect = IF IsTopoReset(req) THEN {}
+                                 ELSE IF IsQueryResp(req, out) THEN a0.expect \ DescSet(Frames(out)[1])
+                                 ELSE ExpectAfterRx(ev, a0)]
+      a1 == IF IsTopoReset(req) /\ FaultOf(ev) = 0 /\ a.resetLive < 0
             THEN [a EXCEPT !.resetLive = ev.live, !.resetBytes = ev.bytes] ELSE a
       fr == Frames(out)
       hello == Len(fr) >= 1 /\ fr[1].op = OpHello /\ fr[1].wf
@@ -114,6 +145,7 @@ Exercised(cfg, st, req, out) ==
   \/ Chk("C09") /\ IsTopoReset(req)
   \/ Chk("C18") /\ st.havoc
   \/ Chk("C19") /\ TRUE
+  \/ Chk("C10") /\ IsQueryResp(req, out) /\ aux[Log[l].ifc].expect # {}
   \/ Chk("EQ") /\ FALSE
 
 TReq ==
@@ -126,7 +158,9 @@ TReq ==
      /\ (Chk("EQ") /\ ev.eq = 1) => TxBytes(ev.out) = TxBytes(Log[l - 1].out)
      /\ Chk("C19") => LedgerOK(ev, req, aux[ev.ifc])
      /\ Chk("C04") => FixedOK(aux[ev.ifc], out)
-     /\ \E nx \in NextStates(cfg, st, req, out, ev.flt, ev.gf) :
+     /\ PipeOK(ev)
+     /\ Chk("C10") => PeerReportOK(req, aux[ev.ifc], out)
+     /\ \E nx \in NextStates(cfg, st, req, out, FaultOf(ev), ev.gf) :
           /\ sts' = [sts EXCEPT ![ev.ifc] = nx]
           /\ (Exercised(cfg, st, req, out) => TLCSet(2, TLCGet(2) \cup {l}))
      /\ aux' = [aux EXCEPT ![ev.ifc] = AuxNext(ev, req, aux[ev.ifc], out)]
